@@ -53,6 +53,7 @@ type world struct {
 	mem     map[int]*member    // reference membership (joined clients)
 	now     int                // virtual seconds since start
 	nchat   int
+	ndead   int // members whose websocket writer has died
 	outcome string
 	alpha   string
 }
@@ -84,6 +85,14 @@ func (w *world) Ops() []seqx.Op {
 				ops = append(ops, op{C: i, Kind: "chat"}) // chat while not joined
 			}
 			continue
+		}
+		if c.V.WriterDead {
+			// its loop will end; until then it stays a member
+			ops = append(ops, op{C: i, Kind: "leave"})
+			continue
+		}
+		if i < 2 && w.ndead == 0 {
+			ops = append(ops, op{C: i, Kind: "writer-dies"})
 		}
 		if i == 2 && w.alpha != "full" {
 			continue // the observer only listens in the small alphabet
@@ -118,6 +127,13 @@ func (w *world) Apply(x seqx.Op) *core.Violation {
 		vtime.Advance(time.Duration(o.N) * time.Second)
 		w.now += o.N
 		w.w.Tick += o.N
+		return nil
+	}
+	if o.Kind == "writer-dies" {
+		// the member's websocket writer dies (write error or time-out); the
+		// member itself stays in the group until its loop notices
+		w.w.WriterDies(o.C)
+		w.ndead++
 		return nil
 	}
 	if o.Kind == "chat49" {
@@ -371,7 +387,9 @@ func (w *world) check(o op, i int, m sig.Msg, herr string, got [][]sig.Msg) *cor
 		}
 		want := map[int]bool{}
 		for _, k := range w.members(me.group) {
-			want[k] = true
+			if !w.w.Clients[k].V.WriterDead {
+				want[k] = true
+			}
 		}
 		if o.Kind == "chat-noecho" {
 			delete(want, i)
@@ -426,7 +444,12 @@ func (w *world) check(o op, i int, m sig.Msg, herr string, got [][]sig.Msg) *cor
 		}
 		for k := range got {
 			uc := userChats(k)
-			if k == dest {
+			if k == dest && w.w.Clients[k].V.WriterDead {
+				// nothing can be written to a member whose writer has died
+				if len(uc) != 0 {
+					return viol("unicast-leaked", "a message was written to a dead writer's channel")
+				}
+			} else if k == dest {
 				if len(uc) != 1 {
 					return viol("unicast-not-delivered", fmt.Sprintf("private %v by %s to member %s: %d copies delivered", m["type"], c.ID, o.Arg, len(uc)))
 				}
@@ -469,6 +492,11 @@ func (w *world) Canon() string {
 	var b strings.Builder
 	b.WriteString(w.w.Canon())
 	fmt.Fprintf(&b, "\nnow=%d", w.now)
+	for i, c := range w.w.Clients {
+		if c.V.WriterDead {
+			fmt.Fprintf(&b, "|dead%d", i)
+		}
+	}
 	for _, g := range []string{"g", "h"} {
 		for _, e := range w.hist[g] {
 			fmt.Fprintf(&b, "|%s:%s:%d", g, e.value, w.now-e.at)
